@@ -236,7 +236,7 @@ SKIP_MC = False       # set by forms.collect(): only the generator part of anoth
 
 
 def tlc_must_pass(module, cfg=None, **kw):
-    if SKIP_MC:
+    if SKIP_MC or os.environ.get("VERIF_DEV_SKIP_MC") == "1":      # the latter: development runs against scratch trees only (lib/seedcheck.py)
         return TlcResult()
     """Model-check a design-level configuration. A violated invariant here means the *specification*
     contradicts itself (oracle bug) -> tool error, not a verdict about the code."""
